@@ -308,7 +308,9 @@ pub fn run(args: &Args, rep: &mut Report) {
         scfg.props = props.clone();
         scfg.start_day = 30 + rng.below(40_000) as u32;
         scfg.update_accessed = args.flag("atime") && rng.chance(1, 2);
-        scfg.short_dev = if args.flag("short") && rng.chance(1, 3) { Some(rng.next_u64()) } else { None };
+        // a storage object may transfer fewer bytes than asked for (Read/Write contract): one session in six, one in three
+        // where the plan asks for it
+        scfg.short_dev = if rng.chance(1, if args.flag("short") { 3 } else { 6 }) { Some(rng.next_u64()) } else { None };
         scfg.shadow_mount = args.flag("shadow");
         scfg.lib_walk = !args.flag("nolibwalk");
         scfg.opt_order = rng.below(12) as u8;
